@@ -7,7 +7,6 @@ import (
 	"fmt"
 	"regexp"
 	"strings"
-	"unicode/utf8"
 
 	"mvdan.cc/sh/v3/syntax"
 )
@@ -101,8 +100,9 @@ func c10Multi(r *Rand) string {
 // c10Tails: what may follow the here-document word on its line; `items` is how the tie's model
 // sees it (t token, e preNested, l postNested, N "the token after this piece is lexed before the
 // postNested that follows").  From reading the parser: testClause and letClause lex the token
-// after them while the pending here-documents are still buried; arithmEnd, cmdSubst, subshell,
-// arrays, process substitutions restore first.
+// after them while the pending here-documents are still buried (when it is the newline, the
+// postNested that follows reads the bodies — since a243c26); arithmEnd, cmdSubst, subshell, arrays,
+// process substitutions restore first.
 var c10Tails = []struct{ text, items string }{
 	{"", ""},
 	{"; echo x", "ttt"},
@@ -192,36 +192,6 @@ func c10HdocProgram(r *Rand) string {
 
 // ---------------------------------------------------------------------------------------------
 
-var c10BuriedRe = regexp.MustCompile(`(\]\]|\blet\b[^;|&()<>]*)[ \t]*(#.*)?$`)
-
-// c10Class names the known class a failing cut belongs to, or "".
-// The error is "unclosed here-document" and no line of its body has been read: every line from
-// the one holding the `<<` to the end of the prefix either ends in a backslash (line continuation)
-// or ends in `]]` / a `let` expression (optionally + comment), whose newline is lexed while
-// preNested has the pending here-document buried.  In both cases the entry point itself
-// (Parse/StmtsSeq) reads the body after `stmts` has returned, outside every openNodes bracket.
-//   heredoc-buried-newline    — the last line is of the `]]`/let kind
-//   heredoc-line-continuation — the prefix ends in backslash-newline
-func c10Class(prefix string, err error) string {
-	pos, _, ok := c10ErrPos(err)
-	if !ok || !strings.Contains(err.Error(), "unclosed here-document") || !pos.IsValid() {
-		return ""
-	}
-	lines := strings.Split(strings.TrimSuffix(prefix, "\n"), "\n")
-	if int(pos.Line()) < 1 || int(pos.Line()) > len(lines) {
-		return ""
-	}
-	for _, l := range lines[pos.Line()-1:] {
-		if !strings.HasSuffix(l, "\\") && !c10BuriedRe.MatchString(l) {
-			return ""
-		}
-	}
-	if strings.HasSuffix(lines[len(lines)-1], "\\") {
-		return "heredoc-line-continuation"
-	}
-	return "heredoc-buried-newline"
-}
-
 // c10CutKind names what was open at an incomplete cut, from the error text.
 func c10CutKind(prefix string, err error) string {
 	t := err.Error()
@@ -301,19 +271,14 @@ func c10Cuts(src string, lang syntax.LangVariant, hist map[string]int) (fails []
 }
 
 // c10Minimize shrinks a valid program that has a failing cut, keeping both properties.
-func c10Minimize(src string, lang syntax.LangVariant, class string) string {
+func c10Minimize(src string, lang syntax.LangVariant) string {
 	bad := func(s string) bool {
 		f, err, pn := parseIn(s, lang, syntax.KeepComments(true))
 		if pn != "" || err != nil || f == nil {
 			return false
 		}
 		fails, _ := c10Cuts(s, lang, nil)
-		for _, fl := range fails {
-			if c10Class(s[:fl.cut], fl.err) == class {
-				return true
-			}
-		}
-		return false
+		return len(fails) > 0
 	}
 	evals := 0
 	for chunk := len(src) / 2; chunk >= 1; chunk /= 2 {
@@ -358,18 +323,6 @@ func c10PlainForCols(src string) bool {
 	return true
 }
 
-// c10Utf8BadByte is the offset of the first byte that does not start a valid UTF-8 sequence.
-func c10Utf8BadByte(src string) int {
-	for i := 0; i < len(src); {
-		r, w := utf8.DecodeRuneInString(src[i:])
-		if r == utf8.RuneError && w == 1 {
-			return i
-		}
-		i += w
-	}
-	return len(src)
-}
-
 // c10CheckPos is clause 1 on one error.
 func c10CheckPos(c *Ctx, where, src string, lang syntax.LangVariant, err error) {
 	pos, kind, ok := c10ErrPos(err)
@@ -399,15 +352,6 @@ func c10CheckPos(c *Ctx, where, src string, lang syntax.LangVariant, err error) 
 		l, col := c10LineCol(src, off)
 		c.Hist["error-linecol-checked"]++
 		if int(pos.Line()) != l || int(pos.Col()) != col {
-			if strings.HasSuffix(err.Error(), "invalid UTF-8 encoding") {
-				// known class: Parser.rune reports the error before updating p.w, so the offset is
-				// computed with the width of the previous rune (0 at the start, 2–4 after a
-				// multi-byte rune); line and column are right
-				if l2, c2 := c10LineCol(src, c10Utf8BadByte(src)); int(pos.Line()) == l2 && int(pos.Col()) == c2 {
-					c.Fail("errpos-class invalid-utf8-offset", fmt.Sprintf("error position %d:%d does not agree with its offset %d (= %d:%d): %v [e.g. %s %s]", pos.Line(), pos.Col(), off, l, col, err, langName(lang), hx(src)))
-					return
-				}
-			}
 			c.Fail(fmt.Sprintf("errpos %s %s %s", where, langName(lang), hx(src)), fmt.Sprintf("error position %d:%d does not agree with its offset %d (= %d:%d): %v", pos.Line(), pos.Col(), off, l, col, err))
 		}
 	}
@@ -497,11 +441,15 @@ func c10(c *Ctx) {
 			for _, f := range fl {
 				w := fmt.Sprintf("prefix %s %d %s", langName(lang), f.cut, hx(src))
 				what := fmt.Sprintf("prefix of a valid program cut after the line ending at byte %d fails with a non-incomplete error: %v", f.cut, f.err)
-				if cl := c10Class(src[:f.cut], f.err); cl != "" {
-					w = "prefix-class " + cl
-					if !c10HasFailure(c, w) {
-						m := c10Minimize(src, lang, cl)
-						what += fmt.Sprintf(" [e.g. %s %q]", langName(lang), m)
+				// (no open class of failing cuts: the three classes found while this package was
+				// built — buried newline, line continuation, invalid UTF-8 offset — are fixed and
+				// replayed from corpus/C10-fixed.txt)
+				if len(c.Failures) < 5 {
+					if m := c10Minimize(src, lang); m != src {
+						if mf, _ := c10Cuts(m, lang, nil); len(mf) > 0 {
+							w = fmt.Sprintf("prefix %s %d %s", langName(lang), mf[0].cut, hx(m))
+							what = fmt.Sprintf("prefix of a valid program cut after the line ending at byte %d fails with a non-incomplete error: %v [minimised from a %d-byte program]", mf[0].cut, mf[0].err, len(src))
+						}
 					}
 				}
 				c.Fail(w, what)
@@ -696,15 +644,6 @@ func c10(c *Ctx) {
 }
 
 const c10Alphabet = "'\"`$(){}[]<>|&;\\\n#ab =!*?~\t\x00\xc3\xa9\xff"
-
-func c10HasFailure(c *Ctx, w string) bool {
-	for _, f := range c.Failures {
-		if f.Witness == w {
-			return true
-		}
-	}
-	return false
-}
 
 func c10MutateLite(r *Rand, s string) string {
 	b := []byte(s)
